@@ -447,7 +447,9 @@ def main(chk):
         'Solver-based checking of session-parameter handling executed from MIR: Server::sync_parameters (compare_params, query, send, '
         'recv underneath) for symbolic client values over an alphabet containing quote, backslash, space, semicolon and double quote -- '
         'the SQL actually written to the server is lexed the way PostgreSQL reads string literals and must assign exactly the client '
-        'values of the differing tracked parameters; Server::recv on ParameterStatus for tracked, untracked and alternative spellings. '
+        'values of the differing tracked parameters -- lexed under standard_conforming_strings = on AND off (the connection may still hold a previous client\'s setting; E\'\' literals '
+        'are understood); a SET batch the server REFUSES (ErrorResponse, nothing took effect) is not taken for applied: the next sync sends the values again; '
+        'Server::recv on ParameterStatus for tracked, untracked and alternative spellings. '
         'Counterexamples are replayed against the compiled Server over loopback.')
     chk.assumptions += [
         'standard_conforming_strings = on on the server (backslash is an ordinary character in literals)',
